@@ -155,6 +155,13 @@ impl Parser<'_> {
         self.peek() == kind
     }
 
+    /// The current token kind without spending lookahead fuel. For re-checking
+    /// what the caller has just established with `at` / `at_any`: that check may
+    /// have used up the last unit of fuel, after which `peek` answers end of file.
+    pub fn current(&mut self) -> TokenKind {
+        self.input.peek()
+    }
+
     pub fn at_any(&mut self, kinds: &[TokenKind]) -> bool {
         let k = self.peek();
         kinds.contains(&k)
